@@ -141,6 +141,7 @@ AnswerReason(a) ==
 Fuel == IF "fuel" \in DOMAIN cur THEN cur.fuel ELSE 12
 
 Flag(name) == name \in DOMAIN cur /\ cur[name]
+IsQueryCase == "mode" \in DOMAIN cur /\ cur.mode = "query"
 
 (* comparison of an emission sequence `impl` with the reference `spec` (both sequences of
    the same kind of value, Eq an equivalence on it) *)
@@ -157,10 +158,25 @@ SeqReasons(spec, cut, impl, Eq(_, _), rec) ==
     IF rec.kind # "exhausted" \/ \A j \in 1..Len(spec) : \E i \in 1..Len(impl) : Eq(impl[i], spec[j])
     THEN "" ELSE "missing_answer",
     IF rec.kind # "exhausted" \/ BagEquiv(spec, impl, Eq) THEN "" ELSE "wrong_multiplicity",
-    IF ~Flag("ordered") \/ (Len(impl) <= Len(spec) /\ \A i \in 1..Len(impl) : Eq(impl[i], spec[i]))
+    IF ~Flag("ordered") \/ IsQueryCase \/ (Len(impl) <= Len(spec) /\ \A i \in 1..Len(impl) : Eq(impl[i], spec[i]))
     THEN "" ELSE "wrong_order",
     IF \A i \in 1..Len(rec.after) : rec.after[i] THEN "" ELSE "not_fused"
   >>)
+
+(* C05 at the query boundary: block i of the implementation's answers is a permutation (a part, for
+   the last block reached) of the labelled answers of the body's i-th answer *)
+BlockOrdered(impl, answers, blen, Eq(_, _)) ==
+  LET CountEq(seq, x) == Cardinality({j \in 1..Len(seq) : Eq(seq[j], x)})
+      RECURSIVE Go(_, _, _)
+      Go(i, pos, base) ==
+        IF pos > Len(impl) THEN TRUE
+        ELSE IF i > Len(blen) THEN FALSE
+        ELSE LET n == blen[i]
+                 hi == IF pos + n - 1 < Len(impl) THEN pos + n - 1 ELSE Len(impl)
+                 seg == SubSeq(impl, pos, hi)
+                 blk == SubSeq(answers, base + 1, base + n)
+             IN (\A j \in 1..Len(seg) : CountEq(seg, seg[j]) <= CountEq(blk, seg[j])) /\ Go(i + 1, pos + n, base + n)
+  IN Go(1, 1, 0)
 
 (* end of a query case: answers against the reference semantics *)
 QueryEndReason(rec) ==
@@ -180,6 +196,10 @@ QueryEndReason(rec) ==
   IN IF \E i \in 1..Len(impl) : \E c \in impl[i].cs : ~Acyclic(c[2])
      THEN {"malformed_constraint"}   \* a reported disequality binds a variable to a term containing it
      ELSE SeqReasons(spec.answers, spec.cut, impl, AnsEquiv, rec)
+          \cup One(IF ~Flag("ordered") \/ spec.cut \/ BlockOrdered(impl, spec.answers, spec.blen, AnsEquiv)
+                   THEN "" ELSE "wrong_order")
+          \cup One(IF "ticks" \in DOMAIN cur /\ rec.kind = "exhausted" /\ rec.tick # cur.ticks
+                   THEN "model_tick_mismatch" ELSE "")
           \cup (* user state per branch (C10, C22): the trails carried by the states that reach the end
                   of the query are those of the reference semantics, as a multiset *)
                One(IF spec.cut \/ rec.kind # "exhausted" \/ Len(fin) # Len(spec.finals)
@@ -290,7 +310,9 @@ Next ==
           /\ S' = InitK(IF "k" \in DOMAIN Rec.c THEN Rec.c.k ELSE 0) /\ prevI' = InitK(0)
           /\ posted' = <<>> /\ got' = <<>> /\ fin' = <<>> /\ nok' = nok /\ hist' = hist
           /\ eng' = IF "engine" \in DOMAIN Rec.c /\ Rec.c.engine
-                    THEN Solve(Build("b", Rec.c.goal), InitK(0), 400, DefsOf(Rec.c)).s ELSE <<"empty">>
+                    THEN Solve(IF Rec.c.mode = "query" THEN QueryGoalOf(Rec.c.qvars, Rec.c.body)
+                               ELSE Build("b", Rec.c.goal), InitK(0), 400, DefsOf(Rec.c)).s
+                    ELSE <<"empty">>
      ELSE IF Rec.k = "engine"
      THEN (* engine-level trace validation: the recorded stream skeleton is the specification's,
              and the specification takes the same step of the loop of Solver::next *)
